@@ -973,11 +973,13 @@ def exec_layout(case):
                     if touches_bad:
                         bad("C02", "bad-ciphertext-accepted", "a segment whose ciphertext hash leaf is wrong was delivered as valid")
                     if want:
-                        segs = set(range(off // segk_, (off + len(want) - 1) // segk_ + 1))
-                        usable = blocks_intact(segs)
-                        if len(usable) < k:
-                            bad("C03", "success-without-k", "read(%r,%r) succeeded although only %d distinct share numbers have intact blocks for segments %r (k=%d)" % (
-                                off, sz, len(usable), sorted(segs), k))
+                        # the downloader may use a different set of k shares for every segment
+                        for sg_ in range(off // segk_, (off + len(want) - 1) // segk_ + 1):
+                            usable = blocks_intact({sg_})
+                            if len(usable) < k:
+                                bad("C03", "success-without-k", "read(%r,%r) succeeded although only %d distinct share numbers have an intact block for segment %d (k=%d)" % (
+                                    off, sz, len(usable), sg_, k))
+                                break
                 else:
                     probe("read-err-" + err_name(r))
                     if not want.startswith(got) and cons.wrong is None:
